@@ -42,6 +42,7 @@ def run(ctx, tier):
     for r, t in (("R1", "a true verdict comes from the size-checked parser or a frozen exception"),
                  ("R2", "validation-only early returns are placed where nothing later can fail"),
                  ("R3", "expansion divisor coupled to the percent-escape length"),
+                 ("R11", "an invalid base makes can_parse false: behind every parse of the base a `return false` is reached only when it is not valid"),
                  ("R4", "input parsed against a base only if the base is valid"),
                  ("R7", "a size-checked parse against a base uses a base built by the storing parser"),
                  ("R8", "the fast validator defers every authority containing tab / LF / CR, in the host part and in the port part"),
@@ -204,6 +205,56 @@ def check(ctx, fx):
                       "expansion bound uses divisor %s but a percent escape is 3 bytes" % X.show(n["r"]),
                       where=s.get("loc", "").replace("/repo/", ""))
     ctx.floor("R3", nd, 1, "limit/3 expressions")
+    # the quantity compared with limit/3 is the size of EVERYTHING the resolved URL is built from: the input and, when there is
+    # one, the base (a long base with a short reference expands just the same)
+    inits3 = C.single_inits(f)
+    from lib.loops import dominators as _dominators
+    for n, s, b in C.all_nodes(f):
+        if n.get("k") == "bin" and n.get("op") in ("<=", "<", ">", ">=") and any(
+                m.get("k") == "bin" and m.get("op") == "/" and "max_length" in X.show(m.get("l")) for m in X.walk(n)):
+            side = n["l"] if "max_length" not in X.show(n["l"]) else n["r"]
+            t = X.show(C.subst_inits(side, inits3))
+            has_base_param = any("base" in (p_.get("name") or "") for p_ in f.get("params", []))
+            # (inside `if (base_input == nullptr) { ... }` there is no base to count)
+            from rules import helpers_spec as _HS
+            no_base_here = False
+            for t_, pol_ in _HS._edge_conditions(f, b["id"]):
+                tt = t_.replace("(", "").replace(")", "").strip()
+                if (tt == "base_input == nullptr" and pol_) or (tt == "base_input != nullptr" and not pol_) or (tt == "base_input" and not pol_):
+                    no_base_here = True
+            ok3 = "input.size()" in t.replace("this->", "") and (not has_base_param or "base_input" in t or no_base_here)
+            ctx.check("R3", "can_parse: the quantity bounded by limit/3 covers the input and the base", ok3, t[:80],
+                      "`%s` is compared with limit/3, but the validation-only parse is only safe when input AND base together are "
+                      "below it: a long base with a short reference expands past the limit and can_parse says true where parse fails"
+                      % t[:100], where=s.get("loc", "").replace("/repo/", ""))
+    # an invalid base makes can_parse false (URL.canParse: "if parsedBase is failure, return false"): behind every parse of the
+    # base there is a `return false` reached only when that result is not valid
+    from lib.loops import dominators as _dominators
+    dom3, _p3 = _dominators(f)
+    blk3 = {b_["id"]: b_ for b_ in f["blocks"]}
+    nbase = 0
+    for n, s, b in C.all_nodes(f):
+        is_base_parse = n.get("k") == "call" and (n.get("qname") or "").startswith("ada::parser::parse_url_impl") and \
+            any("base_input" in X.show(a) for a in n.get("args", [])[:1])
+        if not is_base_parse:
+            continue
+        nbase += 1
+        refused = False
+        for b2 in f["blocks"]:
+            if b["id"] not in dom3.get(b2["id"], ()) or b2["id"] == b["id"]:
+                continue
+            if not any(st["k"] == "return" and st.get("e") is not None and X.show(X.strip(st["e"])) == "false" for st in b2["stmts"]):
+                continue
+            # the return is entered through an edge of a test of `.is_valid` that lies behind the parse
+            for d in dom3.get(b2["id"], ()):
+                c = C.term_cond(blk3[d])
+                if c is not None and "is_valid" in X.show(c) and "base" in X.show(c) and b["id"] in dom3.get(d, ()):
+                    refused = True
+        ctx.check("R11", "can_parse: an invalid base gives false (%s)" % (s.get("loc", "").split("/")[-1]), refused,
+                  "`return false` behind `!base.is_valid`",
+                  "the base is parsed here but no `return false` follows under a test of its is_valid: with a base that does not parse, "
+                  "can_parse goes on (without a base) and answers true for absolute inputs", where=s.get("loc", "").replace("/repo/", ""))
+    ctx.floor("R11", nbase, 2, "parses of the base inside can_parse")
 
     # ---- R4 ----
     nb = 0
